@@ -81,13 +81,13 @@ package node
 
 //@ func (c *core) processAcceptedInternalTransactions(roundReceived int, receipts []hg.InternalTransactionReceipt) error
 //@   requires c != nil && c.hg != nil && c.validator != nil && c.validators != nil && c.validators.WF() && c.peers != nil && c.peers.WF() && c.promises != nil && len(c.validators.Peers) + len(receipts) < 2147483647 && len(c.peers.Peers) + len(receipts) < 2147483647
-//@   modifies c.validators, c.peers, c.peerSelector, c.removedRound, c.lastPeerChangeRound, c.targetRound, c.promises[*], hg.G_pset(c.hg.Store), hg.G_psetOK(c.hg.Store), hg.G_rep(c.hg.Store), hg.G_fault(c.hg.Store)
+//@   modifies c.validators, c.peers, c.peerSelector, c.removedRound, c.lastPeerChangeRound, c.targetRound, c.promises[*], hg.G_pset(c.hg.Store), hg.G_psetOK(c.hg.Store), hg.G_psetFloor(c.hg.Store), hg.G_rep(c.hg.Store), hg.G_fault(c.hg.Store)
 //@   call SetPeerSet assert[round]   __arg(0) == roundReceived + 6
 //@   call SetPeerSet assert[changed] exists k int :: 0 <= k && k < len(receipts) && AcceptedChange(receipts[k])
 //@   ensures[only-if-changed] (forall k int :: 0 <= k && k < len(receipts) ==> !AcceptedChange(receipts[k])) ==> !__called("SetPeerSet") && c.validators == old(c.validators) && c.peers == old(c.peers) && __eq(hg.G_pset(c.hg.Store), old(hg.G_pset(c.hg.Store)))
 //@   ensures[changed-stored]  ret0 == nil && (exists k int :: 0 <= k && k < len(receipts) && AcceptedChange(receipts[k])) ==> __called("SetPeerSet")
 //@   ensures[stored]          ret0 == nil && __called("SetPeerSet") ==> hg.G_pset(c.hg.Store)[roundReceived + 6] == c.validators && c.validators != nil
-//@   ensures[earlier-kept]    forall r int :: r < roundReceived + 6 ==> hg.G_pset(c.hg.Store)[r] == old(hg.G_pset(c.hg.Store))[r]
+//@   ensures[earlier-kept]    forall r int :: r < roundReceived + 6 && old(hg.G_psetOK(c.hg.Store)) && old(hg.G_psetFloor(c.hg.Store)) <= r ==> hg.G_pset(c.hg.Store)[r] == old(hg.G_pset(c.hg.Store))[r]
 //@   loop 1 modifies c.removedRound
 //@   loop 1 invariant[fold]   validators != nil && validators.WF() && currentPeers != nil && currentPeers.WF() && len(validators.Peers) <= len(old(c.validators.Peers)) + __idx() && len(currentPeers.Peers) <= len(old(c.peers.Peers)) + __idx()
 //@   loop 1 invariant[changed] changed == (exists k int :: 0 <= k && k < __idx() && AcceptedChange(receipts[k])) && (!changed ==> validators == old(c.validators) && currentPeers == old(c.peers))
@@ -175,6 +175,7 @@ package node
 //@   requires c != nil && c.hg != nil
 //@   modifies hg.G_miss(c.hg.Store)
 //@   ensures[nonnil] err == nil ==> (forall k int :: 0 <= k && k < len(events) ==> events[k] != nil)
+//@   ensures[empty-on-error] err != nil ==> len(events) == 0
 //@   loop 1 modifies hg.G_miss(c.hg.Store)
 //@   loop 2 modifies hg.G_miss(c.hg.Store)
 //@   loop 1 invariant[nonnil] forall k int :: 0 <= k && k < len(unknown) ==> unknown[k] != nil
